@@ -354,6 +354,11 @@ class Explorer:
                 res.info = b
             except PathAbort:
                 res.status = 'abort'
+            for fn_ in ctx.data.get('cleanups', []):
+                try:
+                    fn_()
+                except Exception:
+                    pass
             res.pc = ctx.pc
             res.decisions = ctx.decisions
             res.events = ctx.events
@@ -623,6 +628,9 @@ class Interp:
             return v.cell, ()
         if isinstance(v, Opaque) and hasattr(v, 'deref_cell'):
             return v.deref_cell, ()
+        if isinstance(v, (Slice, ListSlice)):
+            # a reference to an unsized value is the fat value itself
+            return Cell(v), ()
         raise Unsupported('deref of %r' % (v,))
 
     def read(self, root, path):
